@@ -2,8 +2,8 @@ package ctfe
 
 import (
 	"bytes"
-	"fmt"
 	"context"
+	"fmt"
 	"strings"
 	"time"
 
